@@ -71,6 +71,14 @@ pub fn set_lookup_wires<
 
         for (inp_target, _) in prover_data.lut_to_lookups[lut_index].iter() {
             let inp_value = pw.get_target(*inp_target);
+            #[cfg(feature = "verif_hooks")]
+            if crate::plonk::verif_knobs::get().skip_witness_checks
+                && !u16::try_from(inp_value.to_canonical_u64())
+                    .map(|v| table_value_to_idx.contains_key(&v))
+                    .unwrap_or(false)
+            {
+                continue;
+            }
             let idx = table_value_to_idx
                 .get(&u16::try_from(inp_value.to_canonical_u64()).unwrap())
                 .unwrap();
@@ -159,6 +167,18 @@ where
         "compute full witness",
         partition_witness.full_witness()
     );
+    #[cfg(feature = "verif_hooks")]
+    let witness = {
+        let mut witness = witness;
+        for (row, column, value) in crate::plonk::verif_knobs::get()
+            .override_cells
+            .into_iter()
+            .flatten()
+        {
+            witness.wire_values[column][row] = F::from_canonical_u64(value);
+        }
+        witness
+    };
 
     let wires_values: Vec<PolynomialValues<F>> = timed!(
         timing,
@@ -222,6 +242,14 @@ where
         "compute partial products",
         all_wires_permutation_partial_products(&witness, &betas, &gammas, prover_data, common_data)
     );
+    #[cfg(feature = "verif_hooks")]
+    if crate::plonk::verif_knobs::get().z_all_zero {
+        for polys in partial_products_and_zs.iter_mut() {
+            for poly in polys.iter_mut() {
+                poly.values.iter_mut().for_each(|v| *v = F::ZERO);
+            }
+        }
+    }
 
     // Z is expected at the front of our batch; see `zs_range` and `partial_products_range`.
     let plonk_z_vecs = partial_products_and_zs
@@ -272,6 +300,16 @@ where
             &alphas,
         )
     );
+    #[cfg(feature = "verif_hooks")]
+    let quotient_polys = {
+        let mut quotient_polys = quotient_polys;
+        if let Some((i, delta)) = crate::plonk::verif_knobs::get().quotient_perturb {
+            quotient_polys[i].coeffs[0] += F::from_canonical_u64(delta);
+        }
+        quotient_polys
+    };
+    #[cfg(feature = "verif_hooks")]
+    let lenient_trim = crate::plonk::verif_knobs::get().lenient_trim;
 
     let all_quotient_poly_chunks: Vec<PolynomialCoeffs<F>> = timed!(
         timing,
@@ -279,6 +317,10 @@ where
         quotient_polys
             .into_par_iter()
             .flat_map(|mut quotient_poly| {
+                #[cfg(feature = "verif_hooks")]
+                if lenient_trim {
+                    quotient_poly.coeffs.truncate(quotient_degree);
+                }
                 quotient_poly.trim_to_len(quotient_degree).expect(
                     "Quotient has failed, the vanishing polynomial is not divisible by Z_H",
                 );
@@ -433,6 +475,10 @@ fn wires_permutation_partial_products_and_zs<
         .collect::<Vec<_>>();
 
     let mut z_x = F::ONE;
+    #[cfg(feature = "verif_hooks")]
+    if let Some(v) = crate::plonk::verif_knobs::get().z_first_override {
+        z_x = F::from_canonical_u64(v);
+    }
     let mut all_partial_products_and_zs = Vec::with_capacity(all_quotient_chunk_products.len());
     for quotient_chunk_products in all_quotient_chunk_products {
         let mut partial_products_and_z_gx =
@@ -568,9 +614,35 @@ fn compute_lookup_polys<
                 final_poly_vecs[slot + 1].values[row] = prev - sum;
             }
         }
+
+        #[cfg(feature = "verif_hooks")]
+        if crate::plonk::verif_knobs::get().sldc_shift {
+            let end = final_poly_vecs[num_partial_lookups].values[last_lu_row];
+            for row in last_lu_row..(first_lut_row + 1) {
+                for slot in 0..num_partial_lookups {
+                    final_poly_vecs[slot + 1].values[row] -= end;
+                }
+            }
+            final_poly_vecs[num_partial_lookups].values[first_lut_row + 1] -= end;
+        }
     }
 
     final_poly_vecs
+}
+
+/// `compute_lookup_polys` for the external verification harness.
+#[cfg(feature = "verif_hooks")]
+pub fn verif_compute_lookup_polys<
+    F: RichField + Extendable<D>,
+    C: GenericConfig<D, F = F>,
+    const D: usize,
+>(
+    witness: &MatrixWitness<F>,
+    deltas: &[F; 4],
+    prover_data: &ProverOnlyCircuitData<F, C, D>,
+    common_data: &CommonCircuitData<F, D>,
+) -> Vec<PolynomialValues<F>> {
+    compute_lookup_polys(witness, deltas, prover_data, common_data)
 }
 
 /// Computes lookup polynomials for all challenges.
